@@ -219,3 +219,17 @@ M("t4-node-from-library-heap", ["C13"], "break",
   [("yaep.c", "  alt = (struct yaep_tree_node *) (*parse_alloc) (sizeof\n						  (struct yaep_tree_node));", "  alt = (struct yaep_tree_node *) yaep_malloc (grammar->alloc, sizeof\n						  (struct yaep_tree_node));")], "node-cast")
 M("r13-benign-helper-mark", ["C13"], "benign",
   [("yaep.c", "		  place_translation (parent_anode->val.anode.children +\n				     parent_disp, empty_node);\n		  empty_node->val.nil.used = 1;", "		  empty_node->val.nil.used = 1;\n		  place_translation (parent_anode->val.anode.children +\n				     parent_disp, empty_node);")])
+
+# ---- R1c / R12 -----------------------------------------------------------------------------------
+M("r12-revert-F7", ["C14", "C12"], "break",
+  [("yaep.c", "      if (context < 0)\n	/* The set is already in the table of the grammar (it is not\n	   the first parse).  */\n	context = -context - 1;\n", "")], "build_start_set/term_set_insert")
+M("r12-expand-no-normalise", ["C14", "C12"], "break",
+  [("yaep.c", "		  if (context >= 0)\n		    context_set = term_set_create ();\n		  else\n		    context = -context - 1;", "		  if (context >= 0)\n		    context_set = term_set_create ();")], "expand_new_start_set/term_set_insert")
+M("r12-benign-abs-form", ["C14", "C12"], "benign",
+  [("yaep.c", "		  if (context >= 0)\n		    context_set = term_set_create ();\n		  else\n		    context = -context - 1;", "		  if (context < 0)\n		    context = -context - 1;\n		  else\n		    context_set = term_set_create ();")])
+M("r1c-caller-anode-not-reset", ["C14", "C13"], "break",
+  [("yaep.c", "  for (rule = rules_ptr->first_rule; rule != NULL; rule = rule->next)\n    rule->caller_anode = NULL;\n}", "}")], "rule.caller_anode")
+M("r1c-one-parse-not-restored", ["C14"], "break",
+  [("yaep.c", "  parse_state_fin ();\n  grammar->one_parse_p = saved_one_parse_p;", "  parse_state_fin ();")], "grammar.one_parse_p")
+M("r1c-parse-writes-cost-flag", ["C14"], "break",
+  [("yaep.c", "  if (grammar->cost_p)\n    /* We need all parses to choose the minimal one */\n    grammar->one_parse_p = FALSE;", "  if (grammar->cost_p)\n    {\n      /* We need all parses to choose the minimal one */\n      grammar->one_parse_p = FALSE;\n      grammar->lookahead_level = 1;\n    }")], "grammar.lookahead_level")
